@@ -31,6 +31,7 @@ vars == <<a, b, depth>>
 \* ------------------------------------------------------------------ values
 Bases == {<<"billion kcals", "thousand tons", "thousand tons">>,
           <<"ratio", "ratio", "ratio">>,
+          <<"billion kcals", "ratio", "ratio">>,       \* dimensionless in two nutrients only: not a ratio
           <<"percent people fed", "percent people fed", "percent people fed">>}
 Default == <<"billion kcals", "thousand tons", "thousand tons">>
 RatioB == <<"ratio", "ratio", "ratio">>
